@@ -342,7 +342,19 @@ fn case_buffered(cx: &mut Cx, cs: u64) {
                 }
                 fill_hint += req;
             }
-            let m = format!("m{}.{}", k, "q".repeat(len)).chars().take(len).collect::<String>();
+            // every third metric carries 2-byte characters (byte length != char count)
+            let m = if k % 3 == 0 && len >= 8 {
+                let mut s = format!("m{}.", k);
+                while s.len() + 2 <= len {
+                    s.push('é');
+                }
+                while s.len() < len {
+                    s.push('q');
+                }
+                s
+            } else {
+                format!("m{}.{}", k, "q".repeat(len)).chars().take(len).collect::<String>()
+            };
             let x = panics::guard(|| sink.emit(&m));
             let e = if let Ok(Err(e)) = &x { e.raw_os_error() } else { None };
             (Op::Emit(m.into_bytes()), match x { Ok(Ok(n)) => Res::OkN(n), Ok(Err(_)) => Res::Err(None), Err(p) => Res::Panicked(p) }, e)
